@@ -6,6 +6,29 @@ import subprocess
 ROOT = os.path.dirname(os.path.dirname(os.path.abspath(__file__)))
 
 CHECKS = {
+    "C08": dict(
+        technique="two TLA+ specifications over integer probe dynamics model-checked by TLC: Integrate.tla (which sample acts in "
+                  "which step, t_max padding/truncation, column k = state after k steps, stimuli add, clamps hold) and NetSim.tla "
+                  "(recordings and clamps of synaptic states by edge identity with interleaved synapse types); every time-loop "
+                  "configuration and a hash sample of the network histories replayed on jx.integrate",
+        category="model_checking", design="4/C08",
+        text="SampleKActsInStepK, ClampHolds, ColumnKIsAfterKSteps are TLC invariants; the real integrate must return TLC's integer "
+             "matrices for every (input length, t_max, second stimulus, clamp) configuration incl. data_stimulate == stimulate and "
+             "manual stepping; on networks every recorded synaptic state / current and every clamped synaptic state must be that of "
+             "the edge it was requested for (rows in the order record() was called). Row order / de-duplication of recordings and "
+             "the external-input tables are additionally decided by C19's projection compare.",
+        note="Trusted: TLC; exact-binary dt; probe mechanisms make every contribution a distinguishable integer."),
+    "C09": dict(
+        technique="TLA+ specification of networks with synapses over integer probe dynamics (NetSim.tla) model-checked by TLC "
+                  "on every wiring history; hash-sampled observed states replayed through connect()/edge views on the real "
+                  "network: edge table compare + integrate vs TLC's integers",
+        category="model_checking", design="4/C09",
+        text="For every history of <= 3 connect() calls (autapses, fan-in, two interleaved synapse types, all creation orders) and "
+             "<= 2 edits through type / k-th-edge views TLC checks CreationOrderIrrelevant, ZeroWeightIsIsolation, "
+             "OnlyPostCompartmentsMove; replayed states must show each synapse reading its pre compartment, injecting into its post "
+             "compartment scaled by the post area (K differs per compartment), fan-in adding, and parameters reaching exactly the "
+             "selected synapses, under thomas and jax.sparse (thorough: all three backends).",
+        note="Trusted: TLC; probe synapses; the replay is a deterministic 1/SAMPLE hash sample of the explored histories."),
     "C20": dict(
         technique="TLA+ specification of the connectivity builders with the random draws as nondeterministic choice "
                   "(Connect.tla); TLC enumerates every call and every outcome; spec->code replay with forced draws "
